@@ -55,7 +55,7 @@ def _vhd_spec(draw, tier="quick", layer=0, kind=None):
     bits = draw(st.one_of(st.sampled_from([21, 21, 12, 13, 16, 20]), st.integers(12, 22)))
     bs = 1 << bits
     # large BATs (beyond any table/LRU cache granularity) are cheap: only a sparse set of blocks is described
-    nb = draw(st.one_of(st.integers(1, 6), st.integers(1, 40), st.sampled_from([1023, 1024, 1025, 1500, 4096, 4097, 4200, 9000])))
+    nb = draw(st.one_of(st.integers(1, 6), st.integers(1, 40), st.sampled_from([1023, 1024, 1025, 1500, 4096, 4097, 4200, 9000, 65535, 65536, 65537, 70000])))
     tail = draw(st.sampled_from([0, 0, 512, 1024, 4096 + 512, 8192, 8192 + 512, -512]))
     last = bs if tail == 0 else (tail % bs) or bs
     last = max(512, (last // 512) * 512)
@@ -64,7 +64,7 @@ def _vhd_spec(draw, tier="quick", layer=0, kind=None):
         alloc_l = [i for i in range(nb) if draw(st.integers(0, 3)) != 0]
     else:
         alloc_l = set(draw(strat.sparse_subset(nb, 24)))
-        for b in (0, 1023, 1024, 1025, 4095, 4096, 4097, nb - 1, nb - 2):
+        for b in (0, 1023, 1024, 1025, 4095, 4096, 4097, 65535, 65536, 65537, nb - 1, nb - 2):
             if 0 <= b < nb and draw(st.booleans()):
                 alloc_l.add(b)
         alloc_l = sorted(alloc_l)
